@@ -52,6 +52,19 @@ def cases(rng, tier):
         esis = rng.shuffle(CG.block_esis(rng, k, rng.choice([0, 0, 1, 2]), 0.0))
         data = CG.rand_data(rng, k * t)
         cases.blocks.append((CG.sbd_case(rng, k, t, 1, 1, rng.choice([0, 1]), [esis], data), data))
+    # one batch with at least H symbols of overhead and SEVERAL lost source symbols: the binary-only path (no HDPC
+    # rows) rebuilds every lost symbol itself
+    for _ in range(120 if tier == "quick" else 1500):
+        k = rng.choice([4, 6, 10, 12, 13, 20, 26, 27, 40])
+        t = rng.choice([1, 2, 3, 8])
+        nlost = rng.range(2, max(2, min(6, k - 1)))
+        lost = set(rng.shuffle(list(range(k)))[:nlost])
+        rep_ = set()
+        while len(rep_) < nlost + rng.range(10, 14):
+            rep_.add(rng.choice([k + rng.below(40), rng.range(k, (1 << 24) - 1)]))
+        esis = rng.shuffle([e for e in range(k) if e not in lost] + sorted(rep_))
+        data = CG.rand_data(rng, k * t)
+        cases.blocks.append((CG.sbd_case(rng, k, t, 1, 1, rng.choice([0, 1, 100000]), [esis], data), data))
     # receptions made only of symbols of LT degree >= 3 / 4 / 6: every remaining row is heavy, so the first phase
     # takes its r >= 3 and r >= 4 steps (column swaps of more than two ones), unreachable by ordinary receptions
     for _ in range(150 if tier == "quick" else 3000):
